@@ -1567,6 +1567,7 @@ SEM_OF = {"grd": "grounded", "com": "complete", "twoval": "twoval"}
 
 def build_cli(ck, res):
     tdir = os.path.join(ck.ROOT, "harness", "target-bin")
+    ck.source_guard(tdir, ["adf_bdd", "adf-bdd-bin"], ck.REPO)
     rc, out = ck.sh("cargo build --offline --quiet -p adf-bdd-bin", cwd=ck.REPO, env={"CARGO_TARGET_DIR": tdir}, timeout=1800)
     if rc != 0:
         res.broken.append(("build", "adf-bdd binary (cargo build -p adf-bdd-bin)", out[-2000:]))
